@@ -5,21 +5,21 @@ package simd
 
 // r is the index of the first key >= k (keys sit at the even positions of xs), or
 // len(xs)/2 if there is none.
-//@ spec isFirstGE(xs []uint64, k uint64, r int) bool = 0 <= r && r <= len(xs)/2 && (forall e int :: 0 <= e && e < 2*r && e%2 == 0 ==> xs[e] < k) && (r < len(xs)/2 ==> xs[2*r] >= k)
+//@ spec GcIsFirstGE(xs []uint64, k uint64, r int) bool = 0 <= r && r <= len(xs)/2 && (forall e int :: 0 <= e && e < 2*r && e%2 == 0 ==> xs[e] < k) && (r < len(xs)/2 ==> xs[2*r] >= k)
 
 //@ func Naive(xs []uint64, k uint64) int16
 //@   requires len(xs)%2 == 0 && len(xs) <= 65534
 //@   loop 1 invariant 0 <= i && i <= len(xs) && i%2 == 0
 //@   loop 1 invariant forall e int :: 0 <= e && e < i && e%2 == 0 ==> xs[e] < k
-//@   ensures [C20] #first isFirstGE(xs, k, int(result))
+//@   ensures [C20] #first GcIsFirstGE(xs, k, int(result))
 
 //@ arch amd64
 // The exported entry point on amd64 (search_amd64.go): scalar search unless the
 // length is a non-zero multiple of the kernel's stride.
 //@ func Search(xs []uint64, k uint64) int16
-//@   hide isFirstGE
+//@   hide GcIsFirstGE
 //@   requires len(xs)%2 == 0 && len(xs) <= 65534
-//@   ensures [C20] #first isFirstGE(xs, k, int(result))
+//@   ensures [C20] #first GcIsFirstGE(xs, k, int(result))
 
 // The assembly kernel (search_amd64.s).  Every load is obliged to stay inside xs:
 // that is the clause "the result never depends on memory beyond len(xs)".
@@ -28,7 +28,7 @@ package simd
 //@   requires len(xs) >= 8 && len(xs)%8 == 0 && len(xs) <= 65534
 //@   label loop invariant #regs BP%8 == 0 && BP < uint64(len(xs)) && BX == uint64(len(xs)) && CX == uint64(len(xs)) && DX == k
 //@   label loop invariant #below forall e int :: 0 <= e && uint64(e) < BP && e%2 == 0 ==> xs[e] < k
-//@   ensures [C20] #first isFirstGE(xs, k, int(result))
+//@   ensures [C20] #first GcIsFirstGE(xs, k, int(result))
 
 //@ arch !amd64
 // The portable version (search.go), used on every architecture but amd64.
@@ -36,5 +36,5 @@ package simd
 //@   requires len(xs)%2 == 0 && len(xs) <= 65534
 //@   loop 1 invariant 0 <= i && i <= len(xs) && i%8 == 0 && len(xs)%8 == 0
 //@   loop 1 invariant forall e int :: 0 <= e && e < i && e%2 == 0 ==> xs[e] < k
-//@   ensures [C20] #first isFirstGE(xs, k, int(result))
+//@   ensures [C20] #first GcIsFirstGE(xs, k, int(result))
 //@ arch any
